@@ -376,6 +376,12 @@ func stmt(o op) string {
 		return fmt.Sprintf("{\n\tr := %s(%s, %d)\n\tdump(v, r)\n}\n", f, S, o.V)
 	case "ReturnComposite":
 		return fmt.Sprintf("%s = func() %s {\n\tr := %s\n\t%s = %d\n\treturn r\n}()\ndump(v)\n", D, goType[o.X], S, firstInt(o.S, o.X), o.V)
+	case "LoopDefine":
+		arr := "x"
+		if o.X == "S" {
+			arr = "x.A"
+		}
+		return fmt.Sprintf("for n := 0; n < 2; n++ {\n\tx := %s\n\t%s[n] = %d\n\t%s[n] = %s[:]\n}\ndump(v)\n", S, arr, o.V, D, arr)
 	case "RangeArray":
 		rng := S
 		if o.J == 1 {
